@@ -20,7 +20,8 @@ Section InsertSecond.
       insert H k v h (LLeaf idx sd) s = (Ok ni, s') /\
       Inv_tree H s' (ins_sub H sd ni 0 oi k v h kref vr hr) /\
       t_insert H k v h (TKey kref sd) (Some (erase (ILeaf idx kref vr hr)))
-      = (true, Some (erase (ins_sub H sd ni 0 oi k v h kref vr hr))).
+      = (true, Some (erase (ins_sub H sd ni 0 oi k v h kref vr hr))) /\
+      nblocks s' = 3.
   Proof.
     intros HI Hk Hv Hh Hkne Hhne ni oi.
     pose proof (leaf_count_leaves H _ _ HI) as Hlc. cbn [it_leaves length] in Hlc.
@@ -87,7 +88,7 @@ Section InsertSecond.
     { unfold sub, ins_sub. destruct sd; cbn [it_indices app]; [reflexivity|]. constructor. apply perm_swap. }
     assert (Hgraft : t_graft kref (t_join H sd (TLeaf k v h)) (erase (ILeaf 0 kref vr hr)) = Some (erase sub)).
     { cbn [erase t_graft]. rewrite N.eqb_refl. unfold sub, ins_sub. destruct sd; reflexivity. }
-    split.
+    split; [|split; [|exact Hn6']].
     - constructor.
       + unfold sub, ins_sub, nb_r, ihv, ni, oi in *. destruct sd.
         * constructor; [exact Hg0| |]; constructor; [exact Hgn|exact Hgo].
